@@ -94,6 +94,7 @@ class StreamWriter(AbstractStreamWriter):
         self, encoding: str = "deflate", strategy: int | None = None
     ) -> None:
         self._compress = ZLibCompressor(encoding=encoding, strategy=strategy)
+        self._compress_lock = asyncio.Lock()
 
     def _write(
         self, chunk: Union[bytes, bytearray, "memoryview[int]", "memoryview[bytes]"]
@@ -193,7 +194,11 @@ class StreamWriter(AbstractStreamWriter):
                 chunk = chunk.cast("c")
 
         if self._compress is not None:
-            chunk = await self._compress.compress(chunk)
+            # One writer at a time in compress(); nothing is awaited between the
+            # release of the lock and the transport write below, so concurrent
+            # write() calls reach the wire in the order they were compressed.
+            async with self._compress_lock:
+                chunk = await self._compress.compress(chunk)
             if not chunk:
                 return
 
@@ -300,11 +305,16 @@ class StreamWriter(AbstractStreamWriter):
         if self._compress:
             chunks: list[bytes] = []
             chunks_len = 0
-            if chunk and (compressed_chunk := await self._compress.compress(chunk)):
-                chunks_len = len(compressed_chunk)
-                chunks.append(compressed_chunk)
+            # Not before a write() that is still in compress(); as in write(),
+            # nothing is awaited between here and the transport write below.
+            async with self._compress_lock:
+                if chunk and (
+                    compressed_chunk := await self._compress.compress(chunk)
+                ):
+                    chunks_len = len(compressed_chunk)
+                    chunks.append(compressed_chunk)
 
-            flush_chunk = self._compress.flush()
+                flush_chunk = self._compress.flush()
             chunks_len += len(flush_chunk)
             chunks.append(flush_chunk)
             assert chunks_len
